@@ -226,8 +226,15 @@ def check(chk, repo, tier):
     for fn in mod.functions.values():
         sym_check(chk, fn, fn.name in info, EF)
 
+    # ---- (V) no hand-rolled one-level mapping in documented-vectorising elements ----
+    one_level_rule(chk, repo, mod, set(frozen))
+
     # ---- (H) the helper ------------------------------------------------------------------
     helper_rules(chk, repo, mod)
+    # lists are paired by iterating them: two iterators over one lazy list
+    # must see the same items (shared with C13)
+    from .c13 import iteration_rules  # noqa: PLC0415
+    iteration_rules(chk, repo, "C08.lazy-iteration-independent")
 
     chk.explanation = (
         "Structural necessary conditions, decided for every element function: "
@@ -242,6 +249,72 @@ def check(chk, repo, tier):
         "decide the results of the scalar arms.")
     chk.assumptions += ["safe_apply calls the function with the given "
                         "arguments in the given order"]
+
+
+ONE_LEVEL_REVIEWED = {
+    ("brackets_balanced", "lhs"): "iterates the characters of its string "
+                                  "argument (øβ is documented for strings)",
+}
+
+
+def one_level_rule(chk, repo, mod, vectorising_names):
+    from ..core import read_elements_yaml  # noqa: PLC0415
+    from ..lazy import LazyViews, excluded_by_guard  # noqa: PLC0415
+    from ..templates import table_keys_with_nodes  # noqa: PLC0415
+    docs = {r["key"]: r for r in read_elements_yaml(repo)
+            if r["kind"] == "element"}
+    n = 0
+    for key, kn, vn in table_keys_with_nodes(repo, "elements"):
+        if not (isinstance(vn, ast.Call) and dotted(vn.func) ==
+                "process_element" and vn.args
+                and isinstance(vn.args[0], ast.Name)):
+            continue
+        rec = docs.get(key)
+        if not rec or rec.get("vectorise") != "true":
+            continue
+        fname = vn.args[0].id
+        fn = mod.functions.get(fname)
+        if fn is None:
+            continue
+        n += 1
+        ok = True
+        for p in value_params(fn):
+            if (fname, p) in ONE_LEVEL_REVIEWED:
+                continue
+            lv = LazyViews(fn, p, {c: set() for c in vectorising_names
+                                   if c != fname})
+            for node in ast.walk(fn):
+                iters = []
+                if isinstance(node, ast.For):
+                    iters = [(node.iter, node.body)]
+                elif isinstance(node, (ast.ListComp, ast.GeneratorExp,
+                                       ast.SetComp)):
+                    iters = [(g.iter, [node.elt]) for g in node.generators]
+                for it_expr, body in iters:
+                    if not lv.is_view(it_expr):
+                        continue
+                    if excluded_by_guard(node, fn, p):
+                        continue
+                    recursive = any(
+                        isinstance(c, ast.Call) and (
+                            (dotted(c.func) or "") in (fname, "vectorise",
+                                                       "safe_apply")
+                            or (dotted(c.func) or "") in vectorising_names)
+                        for b in body for c in ast.walk(b))
+                    if recursive:
+                        continue
+                    ok = False
+                    chk.ob("C08.no-one-level-mapping",
+                           f"{fname}:{p}:{ast.unparse(it_expr)[:40]}", False,
+                           f"the documented-vectorising element {key!r} maps "
+                           f"over `{ast.unparse(it_expr)[:40]}` by hand, one "
+                           "level deep, without recursing or calling "
+                           "vectorise: nested lists are not handled "
+                           "element-wise", mod.rel, node.lineno,
+                           witness=f"⟨⟨1|2⟩|⟨0|1|1⟩|1⟩ {key}")
+        if ok:
+            chk.ob("C08.no-one-level-mapping", fname, True)
+    chk.floor("documented-vectorising element functions", n, 80)
 
 
 def sym_check(chk, fn, has_fallback, EF):
